@@ -129,14 +129,33 @@ class Module:
         return self._names
 
     # -- type helpers
+    def with_c(self, b, c):
+        """serial application of constraint c to the type reached through references and tags"""
+        b = dict(b)
+        k = b["k"]
+        if k == "INTEGER":
+            b["c"] = c if b["c"]["op"] == "none" else {"op": "serial", "a": b["c"], "b": c}
+        elif k in ("OCTETS", "BITS", "STRING", "SEQOF", "SETOF"):
+            b["size"] = c if b["size"]["op"] == "none" else {"op": "serial", "a": b["size"], "b": c}
+        elif k == "REF":
+            b = {"k": "REFC", "n": b["n"], "c": c}
+        elif k == "REFC":
+            b["c"] = {"op": "serial", "a": b["c"], "b": c}
+        elif k == "TAGGED":
+            b["t"] = self.with_c(b["t"], c)
+        return b
+
+    def follow(self, t):
+        return self.env[t["n"]] if t["k"] == "REF" else self.with_c(self.env[t["n"]], t["c"])
+
     def deref(self, t):
-        while t["k"] == "REF":
-            t = self.env[t["n"]]
+        while t["k"] in ("REF", "REFC"):
+            t = self.follow(t)
         return t
 
     def resolve(self, t):
-        while t["k"] in ("REF", "TAGGED"):
-            t = self.env[t["n"]] if t["k"] == "REF" else t["t"]
+        while t["k"] in ("REF", "REFC", "TAGGED"):
+            t = self.follow(t) if t["k"] != "TAGGED" else t["t"]
         return t
 
     def comps(self, t):
@@ -223,6 +242,9 @@ class Module:
             return "[%s%d]%s %s" % (CLASS_NAMES[t["cl"]], t["num"], mode, self.type_text(t["t"], ind))
         if k == "REF":
             return t["n"]
+        if k == "REFC":
+            base = self.resolve(t)
+            return t["n"] + constraint(t["c"], None if base["k"] == "INTEGER" else "SIZE")
         raise ValueError(k)
 
     def text(self):
